@@ -21,6 +21,10 @@ class Creators:
     """
     if gfa_line is None:
       return
+    if isinstance(gfa_line, str):
+      gfa_line = gfa_line.rstrip("\r\n") # the line terminator is not content
+      if len(gfa_line) == 0:
+        raise gfapy.FormatError("Empty lines are not allowed")
     if self._version == "gfa1":
       self.__add_line_GFA1(gfa_line)
     elif self._version == "gfa2":
